@@ -428,6 +428,14 @@ func (a *idxAnalysis) callee(c *ast.CallExpr) (*types.Func, string) {
 		if sel, ok := a.info.Selections[f]; ok {
 			if fn, ok := sel.Obj().(*types.Func); ok {
 				if types.IsInterface(sel.Recv()) {
+					// qualified by the interface's type name when there is a table entry for it
+					tn := sel.Recv().String()
+					if i := strings.LastIndex(tn, "."); i >= 0 {
+						tn = tn[i+1:]
+					}
+					if _, ok := a.e.Iface[tn+"."+fn.Name()]; ok {
+						return nil, tn + "." + fn.Name()
+					}
 					return nil, fn.Name()
 				}
 				if _, ok := a.e.decls[fn]; ok {
@@ -1034,6 +1042,9 @@ func (a *idxAnalysis) results() {
 			}
 			if id, ok := e.(*ast.Ident); ok && id.Name == "nil" {
 				continue
+			}
+			if cl, ok := e.(*ast.CompositeLit); ok && len(cl.Elts) == 0 {
+				continue // an empty list returned together with an error
 			}
 			if !isCollType(a.info.TypeOf(e)) {
 				continue
